@@ -17,17 +17,19 @@
   * thresholds: `|thr| ≤ 2·Q = 1800` (`Q = PieceValues[Queen] = 900`; SEE is only ever called with
     `0`, `-captHist` (|·| ≤ 1024) and small multiples of the depth).
 
-  PROVED here without any hypothesis on the position: the arithmetic half — `see` answers exactly
-  `thr ≤ minimax value` of the capture sequence its own loop walks through (`see_eq_model_minimax`),
-  hence monotonicity (`see_monotone`).  The geometric half — that sequence (incrementally maintained
-  attacker set, x-rays added only along the line of the piece just lifted, per-side progress
-  markers) equals the from-scratch sequence of the specification — is the named hypothesis
-  `AttackersIncremental b m` of `see_eq_minimax_partial`; the harness compares the two sequences
-  themselves on every input (zero differences).  `C18_full` is the full statement; it follows from
-  `∀ valid b, legal m, AttackersIncremental b m` (`C18_full_of_incremental`).
+  PROVED IN FULL (`see_eq_minimax`, `C18_holds : C18_full`).  The proof has two independent halves:
+  * arithmetic — `see` answers exactly `thr ≤ minimax value` of the capture sequence its own loop
+    walks through (`see_eq_model_minimax`; no hypothesis on the position; hence `see_monotone`);
+  * geometry — that sequence (incrementally maintained attacker set, x-rays added only along the
+    line of the piece just lifted, per-side progress markers never skipping a cheaper attacker) is the
+    from-scratch sequence of the specification: `attackers_incremental`, for every well-formed board
+    and every move whose origin is occupied (Proofs/SeeRays, SeeIncr, SeeBridge; uses C12's
+    declarative reading of the magic lookups and ray monotonicity in the occupancy).
+  The harness additionally compares the two sequences themselves on every input.
 -/
 import ChessVerif.Proofs.SeeLoop
 import ChessVerif.Proofs.SeeLegal
+import ChessVerif.Proofs.SeeGeom
 
 namespace ChessVerif.Props.C18
 open ChessVerif ChessVerif.Proofs.SeeAbstract ChessVerif.Proofs.SeeLoop ChessVerif.Proofs.SeeLegal
@@ -67,17 +69,32 @@ theorem see_monotone (b : Board) (m : Move) {thr thr' : Int} (hp : Move.promo m 
 
 /-- (c, conditional) With the geometric hypothesis the test is the comparison with the
     specification's minimax value. -/
-theorem see_eq_minimax_partial (b : Board) (m : Move) (thr : Int) (hp : Move.promo m ≠ 7) (ht : ThrDom thr)
+theorem see_eq_minimax_of_incremental (b : Board) (m : Move) (thr : Int) (hp : Move.promo m ≠ 7) (ht : ThrDom thr)
     (hgeo : AttackersIncremental b m) :
     See.see b m thr = decide (thr ≤ SeeSpec.seeValue b m) := by
   rw [see_eq_model_minimax b m thr hp ht, modelValue_eq_seeValue hgeo]
 
-/-- What is missing for the full property is exactly the geometric hypothesis on valid positions
-    and legal moves. -/
-theorem C18_full_of_incremental
-    (hgeo : ∀ (b : Board) (m : Move), Board.valid b = true → Rules.legal b.abs (decodeMove m) = true →
-      AttackersIncremental b m) : C18_full :=
-  fun b m thr hv hl ht => see_eq_minimax_partial b m thr (legal_promo_ne7 hl) ht (hgeo b m hv hl)
+/-- (c) Geometry: on a well-formed board, for a move whose origin square is occupied, the
+    incrementally maintained attacker set yields the from-scratch capture sequence. -/
+theorem attackers_incremental {b : Board} (hwf : b.wf = true) (m : Move)
+    (hsrc : b.occ.getLsbD (Move.src m) = true) : AttackersIncremental b m :=
+  Proofs.SeeGeom.attackersIncremental hwf m hsrc
+
+/-- **C18.**  For every valid position, every legal move and every threshold `|thr| ≤ 2·Q` the static
+    exchange test answers true exactly when the minimax value of the exchange is at least the threshold. -/
+theorem see_eq_minimax {b : Board} {m : Move} {thr : Int} (hv : Board.valid b = true)
+    (hl : Rules.legal b.abs (decodeMove m) = true) (ht : ThrDom thr) :
+    See.see b m thr = decide (thr ≤ SeeSpec.seeValue b m) :=
+  see_eq_minimax_of_incremental b m thr (legal_promo_ne7 hl) ht
+    (attackers_incremental (Bridge.wf_of_valid hv) m (Proofs.SeeGeom.legal_src_occupied hl))
+
+theorem C18_holds : C18_full := fun _ _ _ hv hl ht => see_eq_minimax hv hl ht
+
+/-- Monotone, against the specification: if the balance reaches a threshold it reaches every lower one. -/
+theorem see_monotone_valid {b : Board} {m : Move} {thr thr' : Int} (hv : Board.valid b = true)
+    (hl : Rules.legal b.abs (decodeMove m) = true) (ht : ThrDom thr) (ht' : ThrDom thr') (hle : thr' ≤ thr)
+    (h : See.see b m thr = true) : See.see b m thr' = true :=
+  see_monotone b m (legal_promo_ne7 hl) ht ht' hle h
 
 /-! ### Non-vacuity -/
 
@@ -92,5 +109,35 @@ example : CapsOK [.piece 100, .piece 300] ∧ ThrDom (-150) :=
 example : SeeSpec.best 900 [.king false] = 0 ∧ SeeSpec.best 900 [.king true] = 900 := by decide
 /-- a promotion with capture (`e7×d8=Q`: promotion code 5) is in the domain of (a'), (b), (c). -/
 example : Move.promo (Move.mk 52 59 5) ≠ 7 := by decide
+
+
+/-- `3r2k1/8/4pn2/3p4/8/2N5/6B1/3R2K1 w`: the exchange on d5 after Nc3×d5 — pawn e6 recaptures, then
+    Bg2 (x-ray opened by nothing: direct), Nf6, Rd1, Rd8: five recapturers, batteries on file and diagonal. -/
+def exch : Board :=
+  { sq := #v[.none, .none, .none, .rook, .none, .none, .king, .none,
+             .none, .none, .none, .none, .none, .none, .bishop, .none,
+             .none, .none, .knight, .none, .none, .none, .none, .none,
+             .none, .none, .none, .none, .none, .none, .none, .none,
+             .none, .none, .none, .pawn, .none, .none, .none, .none,
+             .none, .none, .none, .none, .pawn, .knight, .none, .none,
+             .none, .none, .none, .none, .none, .none, .none, .none,
+             .none, .none, .none, .rook, .none, .none, .king, .none],
+    pieces := #v[0, bit 35 ||| bit 44, bit 18 ||| bit 45, bit 14, bit 3 ||| bit 59, 0, bit 6 ||| bit 62],
+    colors := #v[bit 3 ||| bit 6 ||| bit 14 ||| bit 18, bit 35 ||| bit 44 ||| bit 45 ||| bit 59 ||| bit 62],
+    hashes := [], fullMoves := 1, stm := .white, ep := 0, castles := 0#4, fifty := 0 }
+
+/-- the hypotheses of `see_eq_minimax` hold for a concrete position and the capture Nc3×d5 … -/
+theorem exch_valid : Board.valid exch = true := by decide +kernel
+theorem exch_legal : Rules.legal exch.abs (decodeMove (Move.mk 18 35 0)) = true := by decide +kernel
+/-- … the specification (pure coordinate arithmetic) evaluates in the kernel: the exchange loses 200 … -/
+theorem exch_value : SeeSpec.seeValue exch (Move.mk 18 35 0) = -200 := by decide +kernel
+example : SeeSpec.capsOf exch (Move.mk 18 35 0) = [.piece 100, .piece 300, .piece 300, .piece 500, .piece 500] := by
+  decide +kernel
+/-- … hence, by the theorem, the model of heur.SEE (whose magic-table lookups the kernel could never
+    evaluate) says yes for −200 and no for −199. -/
+example : See.see exch (Move.mk 18 35 0) (-200) = true := by
+  rw [see_eq_minimax exch_valid exch_legal ((thrDom_iff _).2 (by omega)), exch_value]; decide
+example : See.see exch (Move.mk 18 35 0) (-199) = false := by
+  rw [see_eq_minimax exch_valid exch_legal ((thrDom_iff _).2 (by omega)), exch_value]; decide
 
 end ChessVerif.Props.C18
